@@ -226,6 +226,17 @@ impl tower::Service<Request<Bytes>> for AppService {
     }
 }
 
+static NEXT_PORT: AtomicU64 = AtomicU64::new(0);
+
+/// Next candidate listening address: 127.0.0.1 with a port in 10000..30000, starting at a
+/// process-specific offset.
+pub fn next_port() -> SocketAddr {
+    let n = NEXT_PORT.fetch_add(1, Ordering::SeqCst);
+    let base = (std::process::id() as u64 * 613) % 20_000;
+    let port = 10_000 + ((base + n) % 20_000);
+    SocketAddr::from(([127, 0, 0, 1], port as u16))
+}
+
 #[derive(Clone)]
 pub struct NodeCfg {
     pub key: [u8; 32],
@@ -295,15 +306,28 @@ impl Sim {
         let peer_id = peer_id_of(&cfg.key);
         self.run.register_node(peer_id, idx);
         let (service, live) = AppService::new(self.run.clone(), idx);
-        let bind: SocketAddr = cfg.bind.unwrap_or_else(|| "127.0.0.1:0".parse().unwrap());
-        let mut builder = Network::bind(bind)
-            .config(cfg.config.clone())
-            .server_name(cfg.name.clone())
-            .private_key(cfg.key);
-        if let Some(alt) = &cfg.alt {
-            builder = builder.alternate_server_name(alt.clone());
-        }
-        let net = builder.start(service)?;
+        // Fresh nodes get explicit ports below the OS' ephemeral range, so that a port freed by a
+        // shutdown is never handed to somebody else before the node restarts on it.
+        let mut tries = 0;
+        let net = loop {
+            let bind: SocketAddr = cfg.bind.unwrap_or_else(next_port);
+            let mut builder = Network::bind(bind)
+                .config(cfg.config.clone())
+                .server_name(cfg.name.clone())
+                .private_key(cfg.key);
+            if let Some(alt) = &cfg.alt {
+                builder = builder.alternate_server_name(alt.clone());
+            }
+            match builder.start(service.clone()) {
+                Ok(net) => break net,
+                Err(e) if cfg.bind.is_none() && tries < 50 => {
+                    let _ = e;
+                    tries += 1;
+                }
+                Err(e) => return Err(e),
+            }
+        };
+        drop(service);
         let addr = net.local_addr();
         self.run.obs(
             idx,
@@ -313,6 +337,18 @@ impl Sim {
                 "name": cfg.name,
                 "alt": cfg.alt,
                 "limit": cfg.config.max_concurrent_connections,
+                "idle_ms": cfg
+                    .config
+                    .quic
+                    .as_ref()
+                    .and_then(|q| q.max_idle_timeout_ms)
+                    .unwrap_or(10_000),
+                "keepalive_ms": cfg
+                    .config
+                    .quic
+                    .as_ref()
+                    .and_then(|q| q.keep_alive_interval_ms)
+                    .unwrap_or(0),
             }),
         );
         Ok(Node {
@@ -429,9 +465,10 @@ impl Sim {
         };
         // listing at the instant the call returned
         let listed = net.peers();
+        let ev = connect_event(result.as_ref().err().map(|s| s.as_str()));
         run.obs(
             i as i64,
-            "obs.connect_result",
+            ev,
             json!({
                 "addr": addr.to_string(),
                 "expected": expect.as_ref().map(|p| run.node_of(p)),
@@ -554,6 +591,15 @@ pub fn install_panic_hook() {
             }
         }));
     });
+}
+
+/// How a connect() result is classified in the trace.
+pub fn connect_event(err: Option<&str>) -> &'static str {
+    match err {
+        Some("network has been shutdown") => "obs.connect_refused",
+        Some("channel closed") => "obs.connect_aborted",
+        _ => "obs.connect_result",
+    }
 }
 
 pub struct RunOutput {
